@@ -4,6 +4,8 @@
 #   tools/sweep_findings.sh C13 "1 2 3 4 5 6" quick
 cd "$(dirname "$0")/.."
 prop=$1; seeds=${2:-"1 2 3 4 5 6 7 8"}; tier=${3:-quick}
+# work on a private copy of the built Coq library so that editing /verif/coq meanwhile does not disturb the sweep
+snap=/tmp/coqsnap_$$; rm -rf $snap; cp -r coq $snap; export VERIF_COQ_DIR=$snap; trap "rm -rf $snap" EXIT
 for s in $seeds; do
   VERIF_SEED=$s VERIF_WRITE_FINDINGS=1 ./check $prop $tier 2>/dev/null | grep "finding added\|^C[0-9][0-9] "
 done
